@@ -8,10 +8,12 @@ pub mod c06;
 pub mod c07;
 pub mod c08;
 pub mod c11;
+pub mod c13;
 pub mod c15;
 pub mod c18;
 pub mod c19;
 pub mod sm2util;
+pub mod sm9util;
 
 pub const ALL: &[(&str, fn(&Ctx))] = &[
     ("C01", c01::run),
@@ -23,6 +25,7 @@ pub const ALL: &[(&str, fn(&Ctx))] = &[
     ("C07", c07::run),
     ("C08", c08::run),
     ("C11", c11::run),
+    ("C13", c13::run),
     ("C15", c15::run),
     ("C18", c18::run),
     ("C19", c19::run),
